@@ -48,7 +48,7 @@ def instances(draw, sizes, na=None, two_sided=None, cls=None, min_len=1):
         na = 2 if cls == 'two_agent' else (3 if cls in ('shared_tight', 'more_lecturers')
                                            else draw(st.sampled_from([3, 3, 2])))
     n1 = uni(draw, 1, sizes['n1'])
-    n2 = uni(draw, min(min_len, sizes['n2']), sizes['n2'])
+    n2 = uni(draw, min(max(min_len, sizes.get('n2min', 1)), sizes['n2']), sizes['n2'])
     if cls == 'shared_tight':
         n2 = max(n2, 2)
         n1 = max(n1, 2)
